@@ -3,13 +3,17 @@ import os
 import random
 import multiprocessing
 from concurrent.futures import ProcessPoolExecutor
-from harness import stil_gen as sg, stil_corr as sc, circgen as cg
+from harness import stil_gen as sg, stil_corr as sc, circgen as cg, stil_text as st
 from vcheck import core
 
 THEOREMS = ['C18_scan_load_position', 'C18_scan_unload_position', 'C18_pi_group_position', 'C18_po_group_position',
             'C18_interface_is_s_nodes', 'C18_loc_transition_position', 'C18_loc_pi_transition_position', 'C18_mv_transition_spec',
             'C18_tests_column', 'C18_responses_column', 'C18_tests_loc_column',
-            'C18_scan_load_position_v0_refuted', 'C18_interface_v0_refuted']
+            'C18_scan_load_position_v0_refuted', 'C18_interface_v0_refuted',
+            'C18_text_parse_cst', 'C18_text_parse_stil_cst', 'C18_text_language', 'C18_text_language_stil', 'C18_text_ignored_block_iff', 'C18_text_ignored_block_skipped', 'C18_text_layout_irrelevant', 'C18_text_compact_same',
+            'C18_text_transform_core', 'C18_text_ignored_irrelevant', 'C18_text_parse_print', 'C18_text_chain_as_written',
+            'C18_text_group_as_written', 'C18_text_calls_as_written', 'C18_text_scan_load_position', 'C18_text_scan_unload_position',
+            'C18_text_pi_group_position', 'C18_text_po_group_position']
 CHUNK = 12
 
 
@@ -60,12 +64,20 @@ def run(ck):
     ck.prove('C18', THEOREMS)
     rng = random.Random(ck.seed * 7919 + 18)
     fails, cases, meta = [], [], []
+    tcases, tmeta, tfails = [], [], []
+    n_text_big = ck.scale(85, 600)
     n_valid, n_edge = ck.scale(240, 5000), ck.scale(100, 2000)
     for i in range(n_valid + n_edge):
         edge = i >= n_valid
         d, style, pats, kind, calls, chains, text, c = make_case(rng, edge)
         desc = {'stil': text, 'circuit': cg.describe(c), 'profile': d.profile, 'style': style, 'kind': kind,
                 'chains': [[ch['si']] + ch['items'] + [ch['so']] for ch in (chains or d.chains)]}
+        if i % max(1, (n_valid + n_edge) // n_text_big) == 0:      # TEXT level: the generator's own texts and character / keyword mutations
+            cs, ds, of = st.big_case(text, rng, 2)
+            tcases += cs
+            tmeta += ds
+            if of:
+                tfails.append(('stil-text:stil_gen', of, ds[0]))
         s, obs = sc.observe(text, c)
         nmark = sum(ch['items'].count('!') for ch in d.chains)
         ck.count(max(1, len(pats)), f'{kind if edge else "valid"}:{style}:{d.profile}')
@@ -90,8 +102,50 @@ def run(ck):
                        'tests': [sc.mv_chars(x) for x in (obs.get('tests') or [])][:2]})
         cases.append(sc.coq_case(s, c, obs))
         meta.append(desc)
+    # ---- TEXT level: lark (contextual lexer + LALR parser) + StilTransformer + StilFile.__init__ raises against parse_stil / stil_domain ----
+    for _ in range(ck.scale(420, 9000)):
+        cs, d, of = st.small_case(rng)
+        tcases += cs
+        tmeta.append(d)
+        if of:
+            tfails.append(('stil-text:' + d['stream'], of, d))
+    for _ in range(ck.scale(40, 600)):
+        cs, d, of = st.print_case(rng)
+        tcases += cs
+        tmeta += [d] * len(cs)
+        if of:
+            tfails.append(('stil-text:print', of, d))
+    cs, ds, of = st.corner_cases()
+    tcases += cs
+    tmeta += ds
+    if of:
+        tfails.append(('stil-text:corner', of, ds[0]))
+    n_res = {}
+    for d in tmeta:
+        key = f"text:{d.get('stream', 'printed')}:{d['result']}"
+        n_res[key] = n_res.get(key, 0) + 1
+        ck.nontrivial(('text', d['text'][:200]))
+    for key, n in n_res.items():
+        ck.count(n, key)
+    tsize = 70
+    tchunks = [tcases[i:i + tsize] for i in range(0, len(tcases), tsize)]
     chunks = [cases[i:i + CHUNK] for i in range(0, len(cases), CHUNK)]
-    outs = ck.coq_eval_many('stil', [sc.cases_file(ch) for ch in chunks], jobs=14)
+    all_outs = ck.coq_eval_many('stil', [sc.cases_file(ch) for ch in chunks] + [st.cases_file(ch) for ch in tchunks], jobs=14)
+    outs, touts = all_outs[:len(chunks)], all_outs[len(chunks):]
+    tbad = [ci * tsize + j for ci, (ok, out) in enumerate(touts) for j in ((cg.parse_nat_list(out) if ok else None) or [])]
+    tran = all(ok and cg.parse_nat_list(out) is not None for ok, out in touts)
+    terr = next((out[-600:] for ok, out in touts if not ok), '')
+    n_rej = sum(n for k, n in n_res.items() if k.endswith(':raise') and ('mutation' in k or 'hostile' in k))
+    n_acc = sum(n for k, n in n_res.items() if k.endswith(':ok'))
+    n_unrep = sum(n for k, n in n_res.items() if k.endswith(':unrep'))
+    ck.obligation(f'Coq transcription of stil.GRAMMAR as lark parses it (contextual lexer: keyword literals, ignored text before raw text, '
+                  f'_NOB / call-parameter values; LALR parser) + StilTransformer + the raises of StilFile.__init__ = stil.parse on {len(tcases)} texts: '
+                  f'the texts of the STIL generator and character / keyword mutations of them, own files written with arbitrary ignored text, ignored '
+                  f'blocks and statements, token and character mutations of those ({n_rej} mutated texts rejected by stil.parse: both must reject; '
+                  f'{n_acc} texts accepted: equal version token, signal groups, chains, calls), {len(st.CORNER_TEXTS)} fixed corner-case probes, '
+                  f'print_stil output read back; {n_unrep} texts outside the domain (chain list with None) flagged so by stil_domain',
+                  tran and not tbad and n_rej > 0 and n_acc > 0, 'correspondence',
+                  f'failing cases {tbad[:8]} {[tmeta[b] if b < len(tmeta) else None for b in tbad[:2]]} {terr}')
     bad, bad0, ran = [], [], True
     for ci, (ok, out) in enumerate(outs):
         two = sc.parse_two_lists(out) if ok else None
@@ -113,10 +167,16 @@ def run(ck):
             '(load_unload+capture; launch/capture with and without clock pulses; launch_capture names; wrapped strings) rendered as '
             'STIL text: parser output vs rendered structure, tests/responses/tests_loc vs intended values (own Kleene evaluation of '
             'the next state); edge stream (wrong lengths, missing data, shared ports, repeated/unknown cells, odd characters, ...) '
-            'vs the Coq model only; the two TetraMAX files under tests/ (417-cell chain, 678 / 1147 patterns) vs an independent regex reading')
+            'vs the Coq model only; the two TetraMAX files under tests/ (417-cell chain, 678 / 1147 patterns) vs an independent regex reading; '
+            'TEXT level: the generator texts, own token lists of the grammar (all block kinds, repeated / missing blocks and statements, '
+            'hierarchical and odd names, values with newlines / comment markers / quotes / braces, FLOAT variants) written with random ignored '
+            'text (blanks, tabs, form feeds, LF, CR LF, comments) and random ignored blocks (nested braces, comments swallowing braces), '
+            'token mutations (duplicate, swap, delete, keyword variants, insertions) and character mutations (delete / insert / replace with '
+            'braces, quotes, semicolons, CR, VT, Latin-1 ...), fixed corner probes')
     ck.trust('modelled, not verified: StilFile.__init__, _maps, tests, responses, tests_loc (Model/Stil.v, hand transcription tied by '
-             'exact correspondence incl. error cases); the lark grammar / StilTransformer (text -> groups, chains, call list) is covered '
-             'by differential tests against the rendered structure only; in tests_loc the logic simulation (LogicSim m=8, C01/C02) is an '
+             'exact correspondence incl. error cases); stil.GRAMMAR under lark (lexer contexts, keyword order, ignored text, ignored blocks, '
+             'call-parameter values, LALR parser) and the StilTransformer callbacks (Model/StilText.v, hand transcription tied by exact '
+             'correspondence on every run incl. rejected texts, code points < 256; lark itself is NOT modelled); in tests_loc the logic simulation (LogicSim m=8, C01/C02) is an '
              'input of the model: the harness feeds the model the real simulator\'s s[1] and the oracle compares with its own evaluation',
              'wf_scan (distinct interface names, every scan port in one chain, every cell at one place) is the hypothesis of the position '
              'theorems; numpy broadcasting of 1-D operands as modelled by bshape/bget/assign')
@@ -134,6 +194,17 @@ def run(ck):
             continue
         seen.add(key)
         ck.fail(key, 'kyupy.stil: ' + what, {'component': 'stil.StilFile', 'input': desc, 'expected': exp, 'actual': what})
+    seen_t = set()
+    for key, what, d in tfails:
+        if key in seen_t:
+            continue
+        seen_t.add(key)
+        ck.fail(key, 'kyupy.stil grammar: ' + what, {'component': 'stil.GRAMMAR / StilTransformer', 'input': d, 'actual': what})
+    if not fails and not tfails and (tbad or not tran):
+        ck.fail('model-disagrees-text', 'Coq model of the STIL text level and stil.parse disagree',
+                {'component': 'Model/StilText.v / stil.GRAMMAR, StilTransformer',
+                 'input': min((tmeta[b] for b in tbad if b < len(tmeta)), key=lambda d: len(d['text']), default=None),
+                 'failing_texts': len(tbad)}, found_input=False)
     if not fails and (bad or not ran):
         ck.fail('model-disagrees', 'Coq model and implementation disagree', {'component': 'Model/Stil.v',
                                                                             'input': meta[bad[0]] if bad else None}, found_input=False)
@@ -141,6 +212,8 @@ def run(ck):
 
 def replay(rp):
     inp = rp['input']
+    if inp.get('kind') in ('stil-text', 'stil-print'):
+        return True     # text cases are regenerated from the seed; the text and what stil.parse did with it are in the replay
     if 'stil_file' in inp:
         return sc.real_file_oracle(inp['stil_file'], inp['netlist_file'], inp['loc'])[0] is not None
     c = cg.from_description(inp['circuit'])
